@@ -365,5 +365,30 @@ func (l *Loaded) keyBuilders(rel string) map[string]*keyLayout {
 		}
 		out[fn.Name()] = kl
 	}
+	// functions that derive a key from another builder's key without writing a buffer themselves
+	for changed := true; changed; {
+		changed = false
+		for _, fn := range l.pkgFuncs(rel) {
+			if fn.Parent() != nil || !isBytesResult(fn) || out[fn.Name()] != nil {
+				continue
+			}
+			derives := false
+			for _, call := range callsInOwn(fn) {
+				if g := call.Common().StaticCallee(); g != nil && g != fn && fnPkgPath(g) == fnPkgPath(fn) && out[g.Name()] != nil && out[g.Name()].fn == g {
+					derives = true
+				}
+			}
+			if !derives {
+				continue
+			}
+			kl := l.keyLayoutOf(fn)
+			if kl.ok && len(kl.segs) == 0 {
+				kl.ok = false
+				kl.why = "the key is derived from another builder's key by an operation that is not modelled (slicing / appending): its boundary cannot be checked against the segment layout"
+			}
+			out[fn.Name()] = kl
+			changed = true
+		}
+	}
 	return out
 }
